@@ -42,7 +42,10 @@ Definition verdict_of (s : spec_out) (m : mres (list (option tval))) (cls : opti
   match s with
   | SOutOfDomain => 4%Z
   | _ => if holds s o
-         then (if agree m o then 0%Z else 3%Z)
+         then (match s with
+               | SEither _ => 0%Z      (* S allows both outcomes: moving between them does not break the correspondence *)
+               | _ => if agree m o then 0%Z else 3%Z
+               end)
          else match cls with
               | Some k => if agree m o then (100 + k)%Z else 2%Z
               | None => 2%Z
